@@ -129,6 +129,17 @@ def build_specs(rng, quick, ops, keep_snapshots=False, band=None):
             n = 3 * tf + rng.randrange(0, tf + 1)
             add(n, c, 32, rng.choice([1, 2]), f"dynrange:{tf}:{ff}",
                 [dict(op="downsample", gulp=g, start=0, nsamps=n, tf=tf, ff=ff) for g in (1, tf, n + 1)])
+    # at scale: files longer than any internal tiling or the default gulp's neighbourhood (2500 .. 20000 samples)
+    for (n, c, nbits) in ([(2500, 4, 8)] if quick else [(2500, 4, 8), (20000, 2, 8), (3001, 8, 2), (5000, 2, 32)]):
+        calls = []
+        for op in ops:
+            if op == "zerodm":
+                continue          # its model multiplies sums over the whole range: beyond TLC's 32-bit integers at this length
+            for gulp in (16384, 1000):
+                vs = op_variants(op, n, c, nbits, rng, True)
+                if vs:
+                    calls.append(dict(op=op, gulp=gulp, start=rng.choice([0, 7]), nsamps=n - 7, **rng.choice(vs)))
+        add(n, c, nbits, 2, "mid" if nbits != 32 else "mid", calls)
     for _ in range(12 if quick else 150):
         nbits = rng.choice([1, 2, 4, 8, 32])
         c = rng.choice(DEPTH_CH[nbits])
